@@ -1068,6 +1068,9 @@ func TestVerif_C10_DBVersions(t *testing.T) {
 	rapid.Check(t, func(rt *rapid.T) {
 		docN++
 		docid := fmt.Sprintf("ver%d", docN)
+		// every case starts from a freshly started node (no high-water mark carried over from the previous case)
+		now = base0
+		env.DBC.SetHLCClockForTest(func() uint64 { return now })
 		var ops []string
 		render := func() string { return strings.Join(ops, "; ") }
 		vv := map[string]uint64{} // ground truth: highest value seen per source
